@@ -6,7 +6,7 @@ use crate::model::{
     graph::{
         inlines_to_markdown, GraphBlock, GraphInline, GraphInlines,
     },
-    is_ref_url,
+    has_scheme, is_ref_url,
 };
 use crate::model::config::MarkdownOptions;
 use crate::model::node::ColumnAlignment;
@@ -191,7 +191,7 @@ impl MarkdownWriter {
                     } else if t == document::LinkType::WikiLinkPiped {
                         // inside a cell the pipe of a piped wiki link is escaped
                         events.push(Event::InlineHtml(format!("[[{}\\|{}]]", url, text).into()));
-                    } else if !is_ref_url(&url) && text == url {
+                    } else if !is_ref_url(&url) && text == url && has_scheme(&url) {
                         events.push(Event::Start(Tag::Link {
                             title: title.into(),
                             link_type: pulldown_cmark::LinkType::Autolink,
